@@ -45,6 +45,7 @@ Sweep: C16.3 the finish steps tolerate exactly ENOENT and raise everything else,
 Fifth round: C16.4 a candidate port is claimed by bind; address re-use is switched on only after the bind.
 Sixth round: C16.1 the container state is saved before the network of the container is set up; C16.3 load_app_safe stands in for a corrupt state file only (ValueError).
 Seventh round: C16.3 the container directory is removed only after _finish() returned normally (kept for a retry otherwise), and a read error of a resource-service reply means 'not available' only when the file does not exist.
+Eighth round: C16.1 the firewall watcher primes the passthrough reference count with one reference per rule file found and empties the passthrough set before priming it.
 Does NOT decide host state equality over interleavings, nor that passthrough
 hosts resolve to the same addresses at start and finish (the source's own
 FIXME).
